@@ -16,6 +16,7 @@ from sim.prop import Prop, sweep_expand
 
 EPS = 1e-9
 NAMES = ("s", "outer", "a b", "", "100%", "%s", "x%dy", "scope")
+NTYPES = 10  # size of the state family
 _FAMILY = None
 
 
@@ -49,25 +50,74 @@ def family():
             opt: int | Missing
             v: int = 0
 
+        from typing import Literal
+
+        class TL(State):
+            """Required attribute of a Literal type: constructing it without arguments fails inside the validators."""
+            kind: Literal["a", "b"]
+            v: int = 0
+
+        class TU(State):
+            """Required attribute of a union type."""
+            u: int | str
+            v: int = 0
+
+        class TI(State):
+            """A state that is itself iterable (container-like behaviour through a mixin)."""
+            v: int = 0
+
+            def __iter__(self):
+                return iter(())
+
         class M0(State):
             v: int = 1  # (a default that is NOT neutral for the sum/concat merges: nothing may be folded in that was not recorded)
 
         class M1(State):
             items: Sequence[int] = ()
 
+        class M0S(M0):
+            """A metric type that inherits from another metric type: it is a metric of its own."""
+
         _FAMILY = {
-            "types": (T0, T1, T2, G[int], G[str], TF, TM),
-            "names": ("T0", "T1", "T2", "G[int]", "G[str]", "TF(falsy)", "TM(opt: int|Missing)"),
-            "defaultable": (True, False, True, False, False, True, True),
+            "types": (T0, T1, T2, G[int], G[str], TF, TM, TL, TU, TI),
+            "names": ("T0", "T1", "T2", "G[int]", "G[str]", "TF(falsy)", "TM(opt: int|Missing)", "TL(kind: Literal)", "TU(u: int|str)",
+                      "TI(iterable)"),
+            "defaultable": (True, False, True, False, False, True, True, False, False, True),
             "generic": G,
             "metrics": (M0, M1),
+            "metric_sub": M0S,
         }
     return _FAMILY
 
 
 def make_state(ti: int, val: int):
     T = family()["types"][ti]
+    if ti == 7:
+        return T(kind="ab"[val % 2], v=val)
+    if ti == 8:
+        return T(u=val if val % 2 else str(val), v=val)
     return T(v=str(val)) if ti == 4 else T(v=val)
+
+
+class FrozenInjected(Injected):
+    """An injected exception whose instances forbid attribute assignment (like a frozen dataclass exception)."""
+
+    def __init__(self, tag):
+        Exception.__init__(self, tag)
+
+    @property
+    def tag(self):
+        return self.args[0]
+
+    def __setattr__(self, name, value):
+        raise AttributeError(f"cannot assign to field {name!r}")
+
+
+class FalsyInjected(Injected):
+    """An injected exception whose instances are falsy (e.g. an error type that is also a sized container)."""
+
+    def __bool__(self):
+        return False
 
 
 # ------------------------------------------------------------------------------------------------
@@ -231,7 +281,11 @@ class DispDouble:
         if self.spec["exit_pause"]:
             await sim.pause(f"dx{self.uid}")
         if self.spec["exit_raise"]:
-            self.exit_exc = (InjectedBase if self.spec["exit_raise"] == 2 else Injected)(("exit", self.uid))
+            if self.spec["exit_raise"] == 3:
+                # cleanup built on a TaskGroup: it fails with an exception GROUP, which is the object the caller must get
+                self.exit_exc = ExceptionGroup("cleanup failed", [Injected(("exit", self.uid)), Injected(("exit2", self.uid))])
+            else:
+                self.exit_exc = (InjectedBase if self.spec["exit_raise"] == 2 else Injected)(("exit", self.uid))
             self.raised_seq = sim.seq
             sim.stats["fault:disposable_exit_raise"] += 1
             raise self.exit_exc
@@ -309,7 +363,7 @@ def reachable(target, root, seen=None) -> bool:
 # ------------------------------------------------------------------------------------------------
 BASE_CFG = dict(
     w=dict(probe=0, scope=0, updated=0, spawn=0, record=0, log=0, pause=0, raise_=0, cancel_self=0,
-           check_cancel=0, try_=0),
+           check_cancel=0, try_=0, gc=0, reseed=0),
     max_depth=4, max_blocks=10, max_ops=6, p_async=2, disposables=0, disp_faults=0, disp_pause=1,
     completion=0, logger=0, trace=0, names=1, spawn_fail=0, spawn_gate=(1, 0, 0), spawn_via_loop=0,
     probe_each=False, pause_between=False, restore=False, owner_probe=False, top_scope=False,
@@ -366,7 +420,7 @@ def _cfg_for(pid: str, profile: str) -> dict:
                  reuse_disp=1, prebuilt=1,
                  lookup=True, cancel_mode="sweep" if profile == "sweep" else None)
     elif pid == "C09":
-        w.update(scope=6, spawn=3, pause=3, updated=1)
+        w.update(scope=6, spawn=3, pause=3, updated=1, gc=1)
         c.update(completion=3, completion_rules=True, spawn_via_loop=2, late_children=1, spawn_gate=(2, 2, 0),
                  max_blocks=6, top_scope="mostly", tick=1, trace=1, logger=1, prebuilt=1)
         if profile == "faults":
@@ -374,11 +428,11 @@ def _cfg_for(pid: str, profile: str) -> dict:
             w.update(raise_=2, try_=2)
             c.update(spawn_fail=1, disposables=2, disp_faults=1, cancel_mode="random", max_blocks=8)
     elif pid == "C10":
-        w.update(scope=4, spawn=2, record=6, pause=2, updated=1)
-        c.update(completion=3, metrics_rules=True, spawn_via_loop=1, spawn_gate=(2, 1, 0), max_blocks=6, tick=1,
+        w.update(scope=4, spawn=2, record=6, pause=2, updated=1, gc=1)
+        c.update(completion=2, metrics_rules=True, spawn_via_loop=1, spawn_gate=(2, 1, 0), max_blocks=6, tick=1,
                  disposables=2, disp_pause=2, p_async=6, prebuilt=1)
     elif pid == "C19":
-        w.update(scope=5, log=6, spawn=2, pause=1, updated=1)
+        w.update(scope=5, log=6, spawn=2, pause=1, updated=1, reseed=1)
         c.update(logger=1, trace=1, names=len(NAMES), log_rules=True, completion=1, spawn_gate=(2, 1, 0),
                  spawn_via_loop=1, prebuilt=1)
     return c
@@ -420,7 +474,7 @@ class Gen:
         out = []
         n = s.weighted((2, 4, 2, 1), "nstates")
         for _ in range(n):
-            ti = s.draw(7, "type")
+            ti = s.draw(NTYPES, "type")
             out.append((ti, self.value_for(ti)))
             if allow_many and s.chance(1, 8, "dup-type"):
                 out.append((ti, self.fresh()))
@@ -432,14 +486,14 @@ class Gen:
         out = []
         for _ in range(n):
             ns = s.weighted((2, 3, 1), "dstates")
-            d = {"states": [(s.draw(7, "type"), self.fresh()) for _ in range(ns)],
+            d = {"states": [(s.draw(NTYPES, "type"), self.fresh()) for _ in range(ns)],
                  "single": bool(s.draw(2, "single")),
                  "enter_pause": int(s.chance(c["disp_pause"], 4, "epause")),
                  "exit_pause": int(s.chance(c["disp_pause"], 4, "xpause")),
                  "enter_raise": 0, "exit_raise": 0}
             if c["disp_faults"]:
                 d["enter_raise"] = int(s.chance(1, 6, "eraise")) * (1 + s.weighted((3, 1), "eraise-kind"))
-                d["exit_raise"] = int(s.chance(c["disp_faults"], 6, "xraise")) * (1 + s.weighted((3, 1), "xraise-kind"))
+                d["exit_raise"] = int(s.chance(c["disp_faults"], 6, "xraise")) * (1 + s.weighted((3, 1, 1), "xraise-kind"))
                 d["exit_true"] = int(s.chance(1, 6, "xtrue"))
                 d["falsy"] = int(s.chance(1, 8, "falsy"))
             d["yield_as"] = s.weighted((3, 1, 1), "yield-as")  # list, tuple, one-shot iterator
@@ -513,6 +567,9 @@ class Gen:
                 sts = self.states()
                 # the update object may be created before the enclosing block is entered (hoisted), and entered inside it
                 flags = {"prebuilt": 1} if (c["prebuilt"] and s.chance(1, 6, "prebuilt-update")) else {}
+                if c["prebuilt"] and s.chance(1, 6, "update-entered-again"):
+                    # the same update object is entered a second time after it was left, where other state is current
+                    flags["again"] = self.states(allow_many=False)
                 ops.append(["updated", sts, self.block(depth + 1, in_sync), flags])
             elif k == "spawn":
                 if self.actors >= c["max_actors"]:
@@ -523,10 +580,17 @@ class Gen:
                 gate = s.weighted(c["spawn_gate"], "gate")
                 fail = 0
                 if c["spawn_fail"] and s.chance(1, 4, "child-fails"):
-                    fail = 1 + s.draw(2, "fail-when")
-                ops.append(["spawn", via, {"gate": gate, "fail": fail}, self.block(depth + 1, False)])
+                    fail = 1 + s.draw(3, "fail-when")  # early, late, late with a group that wraps a CancelledError
+                spec = {"gate": gate, "fail": fail}
+                if c["spawn_fail"] and gate and s.chance(1, 6, "cancel-as-group"):
+                    # the child answers ITS cancellation with `except* CancelledError: ...; raise`: it ends with a group
+                    # wrapping the CancelledError - for asyncio a failed task, not a cancelled one
+                    spec["cancel_as_group"] = 1
+                if via == 0 and s.chance(1, 6, "spawn-from-callback"):
+                    spec["cb"] = 1  # ctx.spawn is called by a loop callback (call_soon) scheduled inside the scope, not by a task
+                ops.append(["spawn", via, spec, self.block(depth + 1, False)])
             elif k == "record":
-                mt = s.draw(2, "mtype")
+                mt = s.weighted((3, 3, 1), "mtype")  # M0, M1, and a subclass of M0
                 seen_vals = self.recorded.setdefault(mt, [])
                 if seen_vals and s.chance(1, 5, "record-same-instance"):
                     v = seen_vals[s.draw(len(seen_vals), "which-recorded")]  # the very same metric object again
@@ -540,8 +604,13 @@ class Gen:
                 ops.append(["log", s.draw(4, "level"), s.draw(6, "fmt"), s.draw(4, "exc")])
             elif k == "pause":
                 ops.append(["pause"])
+            elif k == "gc":
+                ops.append(["gc"])  # a cyclic garbage collection happens here
+            elif k == "reseed":
+                ops.append(["reseed"])  # the application seeds the global `random` generator with a constant
             elif k == "raise_":
-                ops.append(["raise", (1 + s.weighted((2, 1), "base-kind")) if (c["raise_base"] and s.chance(1, 4, "base")) else 0])
+                ops.append(["raise", (1 + s.weighted((2, 1), "base-kind")) if (c["raise_base"] and s.chance(1, 4, "base"))
+                            else (0, 3, 4)[s.weighted((6, 1, 1), "exc-shape")]])
                 break
             elif k == "cancel_self":
                 ops.append(["cancel_self"])
@@ -549,7 +618,9 @@ class Gen:
                     ops.append(["check_cancel"])
             elif k == "check_cancel":
                 # now and then the check is made by blocking code running in a worker thread (there is no task there)
-                ops.append(["check_cancel_thread"] if s.chance(1, 6, "check-in-thread") else ["check_cancel"])
+                how = s.weighted((4, 1, 1), "check-how")
+                # ... or inside the handler of a CancelledError that was NOT addressed to this task (an awaited future was cancelled)
+                ops.append((["check_cancel"], ["check_cancel_thread"], ["check_cancel_foreign"])[how])
             elif k == "try_":
                 self.blocks += 1
                 body = self.block(depth + 1, in_sync)
@@ -559,12 +630,17 @@ class Gen:
                     self.actors += 1
                     cleanup = [["spawn", 0, {"gate": s.weighted(c["spawn_gate"], "gate"), "fail": 0}, [["pause"]]]]
                 catches = int(bool(c["swallow_cancel"]) and s.chance(1, 3, "catches-cancel"))
+                if catches and c["w"]["cancel_self"] and s.chance(1, 3, "handler-cancels-again"):
+                    cleanup = [*cleanup, ["cancel_self"]]  # the handler swallows this request but asks for a new one (ctx.cancel)
                 ops.append(["try", body, int(c["try_swallow"] and s.draw(2, "swallow")), cleanup, catches])
         return ops
 
     def program(self):
         c = self.cfg
         ops = self.block(0)
+        if c["lookup"] and not c["disp_rules"] and self.s.chance(1, 40, "deep-chain"):
+            # a very long chain of nested updates (entered through an ExitStack, so the Python stack stays shallow)
+            ops.append(["deep", 1200, self.s.draw(NTYPES, "deep-type"), self.fresh()])
         if c["top_scope"] and not (c["top_scope"] == "mostly" and self.s.chance(1, 4, "no-top-scope")):
             self.blocks += 1
             spec = {"async": True, "name": 1, "states": self.states(), "disp": None, "given": 0, "logger": None,
@@ -599,6 +675,7 @@ class Engine:
         self.metric_objs = {}
         self._idents = {}
         self.root_level = logging.DEBUG
+        self.scope_idents = {}
 
     # -- helpers ------------------------------------------------------------------------------
     def ident(self, obj):
@@ -805,12 +882,28 @@ class Engine:
                 self.probe(actor, op[1])
             elif kind == "pause":
                 await sim.pause(f"a{actor.aid}")
+            elif kind == "gc":
+                import gc
+                gc.collect()
+                sim.stats["fault:gc_collect"] += 1
+                sim.event("gc")
+            elif kind == "reseed":
+                import random
+                random.seed(20261004)
+                sim.event("reseed")
+            elif kind == "deep":
+                await self.op_deep(actor, op)
             elif kind == "scope":
                 await self.op_scope(actor, op)
             elif kind == "updated":
                 await self.op_updated(actor, op)
             elif kind == "spawn":
-                self.op_spawn(actor, op)
+                if op[2].get("cb"):
+                    sim.stats["spawn_from_loop_callback"] += 1
+                    sim.loop.call_soon(self.op_spawn, actor, op)
+                    await asyncio.sleep(0)  # (the ready queue is FIFO: the callback has run when the actor resumes)
+                else:
+                    self.op_spawn(actor, op)
             elif kind == "record":
                 self.op_record(actor, op)
             elif kind == "log":
@@ -824,13 +917,23 @@ class Engine:
                 sim.stats["fault:body_raise"] += 1
                 sim.nontrivial = True
                 # (kind 2 is a plain GeneratorExit: a scope inside an async generator that is being closed)
-                raise (Injected, InjectedBase, GeneratorExit)[op[1]](("raise", actor.aid, sim.seq))
+                raise (Injected, InjectedBase, GeneratorExit, FrozenInjected, FalsyInjected)[op[1]](("raise", actor.aid, sim.seq))
             elif kind == "cancel_self":
                 self.op_cancel_self(actor)
             elif kind == "check_cancel":
                 self.op_check_cancel(actor)
             elif kind == "check_cancel_thread":
                 self.op_check_cancel_thread(actor)
+            elif kind == "check_cancel_foreign":
+                fut = sim.loop.create_future()
+                fut.cancel()
+                try:
+                    await fut  # (raises at once: the future is already cancelled; nobody asked THIS task to cancel)
+                except asyncio.CancelledError:
+                    if actor.pending_cancel or actor.harness_cancel:
+                        raise  # the task's own cancellation arrived here instead
+                    sim.stats["check_cancellation_while_handling_foreign_cancel"] += 1
+                    self.op_check_cancel(actor, where="foreign-cancel")
             elif kind == "try":
                 await self.op_try(actor, op)
             if cfg["probe_each"]:
@@ -918,7 +1021,7 @@ class Engine:
             if cur is MISSING:
                 return new
             if isinstance(new, M0):
-                return M0(v=cur.v + new.v)
+                return type(new)(v=cur.v + new.v)
             return M1(items=(*cur.items, *new.items))
 
         def m_first(cur, new):
@@ -1027,7 +1130,7 @@ class Engine:
                         f.body_ended = True
                         actor.stack.pop()
                         pushed = False
-                        f.body_end_seq = sim.event("body-end", f.uid, type(f.body_exc).__name__ if f.body_exc else "")
+                        f.body_end_seq = sim.event("body-end", f.uid, type(f.body_exc).__name__ if f.body_exc is not None else "")
             else:
                 with cm:
                     f.entered = True
@@ -1044,7 +1147,7 @@ class Engine:
                         f.body_ended = True
                         actor.stack.pop()
                         pushed = False
-                        f.body_end_seq = sim.event("body-end", f.uid, type(f.body_exc).__name__ if f.body_exc else "")
+                        f.body_end_seq = sim.event("body-end", f.uid, type(f.body_exc).__name__ if f.body_exc is not None else "")
         except SimStop:
             raise
         except BaseException as exc:  # noqa: BLE001
@@ -1124,7 +1227,7 @@ class Engine:
                 if d.exit_exc is not None and not reachable(d.exit_exc, left):
                     n_err = sum(1 for x in f.disposables if x.exit_exc is not None)
                     sim.fail("exit-error-vanished", f"disposable #{d.uid} of scope #{f.uid} raised {describe_exc(d.exit_exc)} in "
-                             f"__aexit__ but the caller caught {describe_exc(left) if left else 'nothing'}",
+                             f"__aexit__ but the caller caught {describe_exc(left) if left is not None else 'nothing'}",
                              n_exit_errors=min(n_err, 2), body="raised" if f.body_exc is not None else "returned")
                 if d.enter_exc is not None and left is None:
                     sim.fail("enter-error-vanished", f"disposable #{d.uid} of scope #{f.uid} raised in __aenter__ but the block "
@@ -1151,16 +1254,22 @@ class Engine:
                     detail = self.diff(before[key], after[key])
                     sim.fail(f"restore-{key}", f"after leaving scope #{f.uid} ({how}) the surrounding code of actor {actor.aid} "
                              f"sees a different {key}: {detail}", path=how)
+            # a CancelledError may replace the outcome of the block only if somebody could have cancelled this task: the
+            # harness (external cancel / ctx.cancel), or - for tasks spawned into a group - that group aborting, or an
+            # ENCLOSING scope whose child failed (it aborts and cancels this task); the scope's own group never lets the
+            # cancellation it requested itself escape
+            cancellable = (actor.harness_cancel or actor.cancel_landed is not None or actor.spawned_in is not None
+                           or any(g.kind == "scope" and g.is_async and g.child_failed for g in actor.stack))
             if f.body_exc is not None and left is not f.body_exc:
-                cancelled_in_exit = isinstance(left, asyncio.CancelledError)
+                cancelled_in_exit = isinstance(left, asyncio.CancelledError) and cancellable
                 if not cleanup_failed and not cancelled_in_exit:
                     sim.fail("exception-identity", f"body of scope #{f.uid} raised {describe_exc(f.body_exc)} but the caller got "
-                             f"{describe_exc(left) if left else 'nothing'}", path=how)
+                             f"{describe_exc(left) if left is not None else 'nothing'}", path=how)
                 elif not reachable(f.body_exc, left) and left is not None and not cancelled_in_exit:
                     sim.fail("exception-identity", f"body exception {describe_exc(f.body_exc)} not reachable from {describe_exc(left)}",
                              path=how)
             if f.body_exc is None and left is not None and not cleanup_failed and f.body_started \
-                    and not isinstance(left, asyncio.CancelledError):
+                    and not (isinstance(left, asyncio.CancelledError) and cancellable):
                 sim.fail("spurious-exception", f"scope #{f.uid} body returned normally but the block raised {describe_exc(left)}",
                          path=how)
 
@@ -1236,9 +1345,67 @@ class Engine:
                              f"{key}: {self.diff(before[key], after[key])}", path="updated-" + how)
             if body_exc is not None and left is not body_exc:
                 sim.fail("exception-identity", f"body of update block raised {describe_exc(body_exc)} but the caller got "
-                         f"{describe_exc(left) if left else 'nothing'}", path="updated")
+                         f"{describe_exc(left) if left is not None else 'nothing'}", path="updated")
+        again = op[3].get("again") if len(op) > 3 else None
+        if again is not None and left is None:
+            # second, later use of the very same update object - inside another update, so the enclosing state differs
+            sim.stats["update_object_entered_again"] += 1
+            f2 = Frame("updated", self.next_uid())
+            self.all_frames.append(f2)
+            for ti, v in again:
+                f2.states.setdefault(ti, []).append(make_state(ti, v))
+            before2 = self.observe(actor) if cfg["restore"] else None
+            with ctx.updated(*[x for lst in f2.states.values() for x in lst]):
+                actor.stack.append(f2)
+                try:
+                    with cm:
+                        actor.stack.append(f)
+                        try:
+                            self.probe(actor, 0)
+                        finally:
+                            actor.stack.pop()
+                    self.probe(actor, 1)
+                finally:
+                    actor.stack.pop()
+            if cfg["restore"]:
+                after2 = self.observe(actor)
+                for key in ("state", "log", "owner"):
+                    if key in before2 and before2[key] is not None and after2[key] is not None and before2[key] != after2[key]:
+                        sim.fail(f"restore-{key}", f"after the second use of update block #{f.uid} actor {actor.aid} sees a different "
+                                 f"{key}: {self.diff(before2[key], after2[key])}", path="updated-again")
         if left is not None:
             raise left
+
+    async def op_deep(self, actor, op):
+        from contextlib import ExitStack
+        from haiway import ctx
+        sim = self.sim
+        _k, n, ti, val = op
+        other = (ti + 1) % 3  # T0/T1/T2 as filler types
+        pushed = 0
+        sim.stats["deep_chain_of_updates"] += 1
+        sim.nontrivial = True
+        try:
+            with ExitStack() as stack:
+                for i in range(n):
+                    f = Frame("updated", self.next_uid())
+                    st = make_state(ti, val) if i == 0 else make_state(other, 100000 + i)
+                    f.states.setdefault(ti if i == 0 else other, []).append(st)
+                    stack.enter_context(ctx.updated(st))
+                    actor.stack.append(f)
+                    pushed += 1
+                self.probe(actor, 0)
+                await sim.pause(f"a{actor.aid}")
+                self.probe(actor, 1)
+        except SimStop:
+            raise
+        except asyncio.CancelledError:
+            raise
+        except BaseException as exc:  # noqa: BLE001
+            sim.fail("deep-chain", f"{n} nested ctx.updated blocks: {type(exc).__name__} {str(exc)[:80]}", error=type(exc).__name__)
+        finally:
+            del actor.stack[len(actor.stack) - pushed:]
+        self.probe(actor, 0)
 
     def op_spawn(self, actor, op):
         from haiway import ctx
@@ -1261,7 +1428,13 @@ class Engine:
                     sim.stats["fault:child_fail_early"] += 1
                     raise Injected(("child", child.aid))
                 if spec["gate"]:
-                    forced = await sim.gate(f"g{child.aid}", held=spec["gate"] == 2)
+                    try:
+                        forced = await sim.gate(f"g{child.aid}", held=spec["gate"] == 2)
+                    except asyncio.CancelledError as cancelled:
+                        if spec.get("cancel_as_group"):
+                            sim.stats["fault:child_cancelled_ends_with_group"] += 1
+                            raise BaseExceptionGroup("", [cancelled]) from None
+                        raise
                     if forced:
                         child.gate_forced = True
                         child.gate_forced_seq = sim.seq
@@ -1269,6 +1442,10 @@ class Engine:
                 if spec["fail"] == 2:
                     sim.stats["fault:child_fail_late"] += 1
                     raise Injected(("child", child.aid))
+                if spec["fail"] == 3:
+                    # what `except* CancelledError: ...; raise` inside the child leaves behind: a group, not a cancellation
+                    sim.stats["fault:child_fail_with_group_of_cancelled"] += 1
+                    raise BaseExceptionGroup("cancelled inside", [asyncio.CancelledError(), Injected(("child", child.aid))][:1 + (child.aid % 2)])
             except SimStop:
                 raise
             except BaseException as exc:
@@ -1279,7 +1456,7 @@ class Engine:
                 raise
             finally:
                 child.ended = True
-                sim.event("actor-end", child.aid, type(child.end_exc).__name__ if child.end_exc else "")
+                sim.event("actor-end", child.aid, type(child.end_exc).__name__ if child.end_exc is not None else "")
 
         if via == 0:
             try:
@@ -1338,7 +1515,7 @@ class Engine:
                 raise
             finally:
                 child.ended = True
-                sim.event("actor-end", child.aid, type(child.end_exc).__name__ if child.end_exc else "")
+                sim.event("actor-end", child.aid, type(child.end_exc).__name__ if child.end_exc is not None else "")
 
         try:
             child.task = ctx.spawn(background, child.aid)
@@ -1366,10 +1543,11 @@ class Engine:
         sim = self.sim
         _k, mi, val, merge = op
         M0, M1 = self.fam["metrics"]
+        M0S = self.fam["metric_sub"]
         key = (mi, val)
         metric = self.metric_objs.get(key)
         if metric is None:
-            metric = self.metric_objs[key] = M0(v=val) if mi == 0 else M1(items=(val,))
+            metric = self.metric_objs[key] = M1(items=(val,)) if mi == 1 else (M0, M1, M0S)[mi](v=val)
         else:
             sim.stats["same_metric_instance_recorded_again"] += 1
         scope = self.innermost_scope(actor.stack)
@@ -1378,10 +1556,10 @@ class Engine:
             return rhs
 
         def m_sum(lhs, rhs):
-            return M0(v=lhs.v + rhs.v) if mi == 0 else M1(items=(*lhs.items, *rhs.items))
+            return M1(items=(*lhs.items, *rhs.items)) if mi == 1 else type(rhs)(v=lhs.v + rhs.v)
 
         def m_concat(lhs, rhs):
-            return M0(v=lhs.v * 10 + rhs.v) if mi == 0 else M1(items=(*lhs.items, *rhs.items))
+            return M1(items=(*lhs.items, *rhs.items)) if mi == 1 else type(rhs)(v=lhs.v * 10 + rhs.v)
 
         def m_raise(lhs, rhs):
             sim.stats["fault:merge_raises"] += 1
@@ -1526,6 +1704,12 @@ class Engine:
             elif known != tid:
                 sim.fail("log-trace", f"scope #{scope.uid} under root #{root.uid} logged with trace id {tid}, the root's fresh id is {known}",
                          own=0, nested=1)
+        # the scope's own identifier (last bracket group of the prefix) is unique among all scopes of the run
+        ident = prefix.rstrip().rsplit("[", 1)[-1].rstrip("] ") if "[" in prefix else ""
+        if ident:
+            owner_uid = self.scope_idents.setdefault(ident, scope.uid)
+            if owner_uid != scope.uid:
+                sim.fail("log-identifier-shared", f"scopes #{owner_uid} and #{scope.uid} log with the same 'unique' identifier {ident}")
         scope_ident = getattr(scope, "eff_logger", None)
         if scope.metrics_obj is not None and scope.metrics_obj.identifier not in prefix:
             sim.fail("log-identifier", f"prefix {prefix!r} lacks the scope identifier {scope.metrics_obj.identifier}")
@@ -1601,9 +1785,18 @@ class Engine:
             raise
         except asyncio.CancelledError:
             sim.event("try-caught", actor.aid, "CancelledError")
+            consumed = False
+            if catches and actor.pending_cancel:
+                # user code catches the cancellation (without uncancel()): this request is consumed, a later one is not
+                actor.pending_cancel = False
+                actor.caught_cancels += 1
+                if actor.cancel_landed is not None:
+                    actor.exempt_cancel = True  # the external request was consumed by user code
+                sim.stats["cancellation_caught_by_user_code"] += 1
+                consumed = True
             if cleanup:
                 sim.stats["cleanup_spawn_after_cancel"] += 1
-                await self.run_ops(actor, cleanup)
+                await self.run_ops(actor, cleanup)  # (may ask for a NEW cancellation: ctx.cancel() inside the handler)
             if self.cfg["cancel_rules"] and actor.harness_cancel and actor.cancel_landed:
                 # user code that catches the cancellation asks the context: it must report it
                 from haiway import ctx
@@ -1614,17 +1807,12 @@ class Engine:
                 else:
                     sim.fail("check-cancellation-silent", f"actor {actor.aid} was cancelled through asyncio and caught "
                              f"CancelledError, but ctx.check_cancellation() did not raise", how="task.cancel")
-            if catches and actor.pending_cancel:
-                # user code catches the cancellation (without uncancel()): this request is consumed, a later one is not
-                actor.pending_cancel = False
-                actor.caught_cancels += 1
-                if actor.cancel_landed is not None:
-                    actor.exempt_cancel = True  # the external request was consumed by user code
-                sim.stats["cancellation_caught_by_user_code"] += 1
+            if consumed:
                 return
             raise
         except BaseException as exc:  # noqa: BLE001
             sim.event("try-caught", actor.aid, type(exc).__name__)
+            cleanup = [o for o in cleanup if o[0] != "cancel_self"]  # (asking for a new cancellation belongs to the cancel handler only)
             if cleanup:
                 sim.stats["cleanup_spawn_after_error"] += 1
                 await self.run_ops(actor, cleanup)
@@ -1651,7 +1839,7 @@ class Engine:
                 raise
             finally:
                 main_actor.ended = True
-                sim.event("actor-end", 0, type(main_actor.end_exc).__name__ if main_actor.end_exc else "")
+                sim.event("actor-end", 0, type(main_actor.end_exc).__name__ if main_actor.end_exc is not None else "")
 
         async def main():
             t = sim.loop.create_task(actor0())
@@ -1892,7 +2080,7 @@ class Engine:
                     want = (type(f.body_exc), f.body_exc) if f.body_exc is not None else (None, None)
                     if et is not want[0] or ev is not want[1]:
                         sim.fail_post("exit-arguments", f"disposable #{d.uid} __aexit__ received ({et}, {ev!r}), body ended with "
-                                      f"{describe_exc(f.body_exc) if f.body_exc else 'no exception'}")
+                                      f"{describe_exc(f.body_exc) if f.body_exc is not None else 'no exception'}")
                         return
 
     def descendants(self, f, out, states=("no",)):
@@ -1956,22 +2144,24 @@ class Engine:
         from haiway import MISSING
         sim = self.sim
         M0, M1 = self.fam["metrics"]
+        MT = (M0, M1, self.fam["metric_sub"])
+        MI = (0, 1, 2)
 
         def apply(cur, mi, val, merge):
-            new = M0(v=val) if mi == 0 else M1(items=(val,))
+            new = M1(items=(val,)) if mi == 1 else MT[mi](v=val)
             if cur is None:
                 return [new]
             if merge == 0:
                 return [new]
             if merge == 1:
-                return [M0(v=cur.v + val) if mi == 0 else M1(items=(*cur.items, val))]
+                return [M1(items=(*cur.items, val)) if mi == 1 else MT[mi](v=cur.v + val)]
             if merge == 2:
-                return [M0(v=cur.v * 10 + val) if mi == 0 else M1(items=(*cur.items, val))]
+                return [M1(items=(*cur.items, val)) if mi == 1 else MT[mi](v=cur.v * 10 + val)]
             return [cur, new]  # raising merge: unchanged or replaced are both admissible
 
         ref = {}
         for f in self.frames:
-            vals = {0: {"None": None}, 1: {"None": None}}
+            vals = {0: {"None": None}, 1: {"None": None}, 2: {"None": None}}
             for (_seq, mi, val, merge, completed) in f.records:
                 nxt = {}
                 for cur in vals[mi].values():
@@ -1985,7 +2175,7 @@ class Engine:
             m = f.metrics_obj
             if m is None:
                 continue
-            for mi, M in enumerate((M0, M1)):
+            for mi, M in enumerate(MT):
                 got = m.read(M)
                 if repr(got) not in ref[f.uid][mi]:
                     sim.fail_post("metric-value", f"scope #{f.uid}: read({M.__name__}) = {got!r}, reference fold of its records "
@@ -1994,16 +2184,16 @@ class Engine:
                     return
         # merged views (only where the reference is unambiguous)
         def single(f):
-            return all(len(ref[f.uid][mi]) == 1 for mi in (0, 1)) and all(
+            return all(len(ref[f.uid][mi]) == 1 for mi in MI) and all(
                 single(c) for c in f.children) and not any(c.parent_completed_at_registration != "no" for c in f.children)
 
         def merged(f, fn):
-            cur = {mi: next(iter(ref[f.uid][mi].values())) for mi in (0, 1)}
+            cur = {mi: next(iter(ref[f.uid][mi].values())) for mi in MI}
             for c in f.children:
                 if not c.entered and False:
                     continue
                 sub = merged(c, fn)
-                for mi in (0, 1):
+                for mi in MI:
                     if sub[mi] is not None:
                         r = fn(cur[mi] if cur[mi] is not None else MISSING, sub[mi])
                         if r is not MISSING:
@@ -2020,7 +2210,7 @@ class Engine:
                 if mode == "first":
                     return cur
                 if isinstance(new, M0):
-                    return M0(v=cur.v + new.v)
+                    return type(new)(v=cur.v + new.v)
                 return M1(items=(*cur.items, *new.items))
             return merge
 
@@ -2033,7 +2223,7 @@ class Engine:
             for label, fn in (("sum", m_sum), ("first", m_first), ("skip-m1", m_skip)):
                 want = merged(f, fn)
                 got = {type(x): x for x in m.metrics(merge=fn)}
-                for mi, M in enumerate((M0, M1)):
+                for mi, M in enumerate(MT):
                     if got.get(M) != want[mi]:
                         sim.fail_post("merged-view", f"scope #{f.uid}: metrics(merge={label}) gives {got.get(M)!r} for {M.__name__}, "
                                       f"depth-first fold in creation order gives {want[mi]!r}", merge=label)
@@ -2077,7 +2267,9 @@ class ScopeProp(Prop):
 
 def _mk(pid, level, tiers, rule, sweeps=()):
     cls = type(pid, (ScopeProp,), {"id": pid, "level": level, "tiers": tiers, "rule_text": rule,
-                                   "sweep_profiles": tuple(sweeps)})
+                                   "sweep_profiles": tuple(sweeps),
+                                   # programs with explicit gc events: garbage of earlier runs must not be finalised inside them
+                                   "gc_before": pid in ("C09", "C10")})
     return cls()
 
 
